@@ -512,7 +512,15 @@ fn eval_func_expr(
     node: dom::XmlNode,
     context: &mut model::Context,
 ) -> error::Result<model::Value> {
-    let (local_part, _, uri) = context.expanded_name(func.name())?;
+    // A function name without prefix is in no namespace: the default namespace of the
+    // context is for names of elements.
+    let (local_part, uri) = match func.name() {
+        nom::model::QName::Unprefixed(name) => (name.to_string(), None),
+        name => {
+            let (local_part, _, uri) = context.expanded_name(name)?;
+            (local_part, uri)
+        }
+    };
 
     let table = func::table();
     let entry = table
